@@ -167,6 +167,23 @@ def markMoved (st : St) (id : Nat) (e : Entry) : St :=
 
 def putTab (st : St) (id : Nat) (e : Entry) : St := { st with tabs := st.tabs.setIfInBounds id (some e) }
 
+/-- `insert` each pair in order (initializer-list / range constructors, `operator=(initializer_list)`): stops at an error -/
+def insertAll (c : Cfg Nat) (t : T) : List (Nat × Nat) → T × Option Err
+  | [] => (t, none)
+  | (k, v) :: rest =>
+    match t.uprase c false k v false false (fun _ v => .ret v false) with
+    | (t, o, _) =>
+      match o.res with
+      | .err e => (t, some e)
+      | .ok _ => insertAll c t rest
+
+def parsePairs : List String → Option (List (Nat × Nat))
+  | [] => some []
+  | k :: v :: rest => do
+    let k ← k.toNat?; let v ← v.toNat?; let r ← parsePairs rest
+    pure ((k, v) :: r)
+  | _ => none
+
 def modelLine (st : St) (ws : List String) : St × String :=
   let c := st.cfg
   match ws with
@@ -212,6 +229,23 @@ def modelLine (st : St) (ws : List String) : St × String :=
     match id.toNat? with
     | some id => withTab st id fun st e => (putTab st id e, s!"ok a={e.alloc} own={e.alloc} mism=0")
     | none => (st, "bad-op")
+  | "newil" :: id :: n :: rest | "newrange" :: id :: n :: rest =>
+    match id.toNat?, n.toNat?, parsePairs rest with
+    | some id, some n, some ps =>
+      let (t, e) := insertAll c (Table.init c n) (if ws.head? == some "newil" then ps.take 4 else ps)
+      match e with
+      | none => (putTab st id { t := t }, "ok")
+      | some er => (st, "err " ++ errName er)
+    | _, _, _ => (st, "bad-op")
+  | "assignil" :: id :: _ :: rest =>
+    match id.toNat?, parsePairs rest with
+    | some id, some ps =>
+      withTab st id fun st e =>
+        if e.locked then (putTab st id e, "bad-table") else
+        let ⟨t, locked, alloc, mf⟩ := e
+        let (t, er) := insertAll c (t.clear c) (ps.take 4)
+        (putTab st id ⟨t, locked, alloc, mf⟩, match er with | none => "ok" | some x => "err " ++ errName x)
+    | _, _ => (st, "bad-op")
   | ["ltmoveassign", a, b] =>
     -- `lt_a = std::move(lt_b)` on two active locked tables: a's section ends (table a is unlocked), b stays locked
     match a.toNat?, b.toNat? with
@@ -285,6 +319,10 @@ def modelLine (st : St) (ws : List String) : St × String :=
           (putTab st id (mk t), showRes (fun _ => "") r)
         | "setworkers" => (putTab st id (mk { t with workers := a }), "ok")
         | "ltfind" => let p := t.ltFind c a; (putTab st id (mk t), s!"{showPos p} {posVal c t p}")
+        | "ltapi" => (putTab st id (mk t), if locked then "ok" else "bad-table")
+        | "api" =>
+          let (t, o) := t.fnOp c false a (fun v => .ret v false)
+          (putTab st id (mk t), match o.res with | .ok b => "ok " ++ showB b | .err er => "err " ++ errName er)
         | "ltcount" => (putTab st id (mk t), toString (t.ltCount c a))
         | "ltat" =>
           match t.ltAt c a with
